@@ -1,0 +1,35 @@
+//go:build verif
+
+package socks5
+
+import (
+	"context"
+	"net"
+
+	apicommon "github.com/enfein/mieru/v3/apis/common"
+	"github.com/enfein/mieru/v3/apis/model"
+)
+
+// Exports for the external verification harness (property C18). Add-only; compiled only with -tags verif.
+
+// VerifC18ParseSocks5UDPDatagram calls parseSocks5UDPDatagram.
+func VerifC18ParseSocks5UDPDatagram(pkt []byte) (addr model.AddrSpec, header, payload []byte, err error) {
+	d, err := parseSocks5UDPDatagram(pkt)
+	if err != nil {
+		return model.AddrSpec{}, nil, nil, err
+	}
+	return d.Addr, d.Header, d.Payload, nil
+}
+
+// VerifC18NewSocks5UDPDatagram calls newSocks5UDPDatagram.
+func VerifC18NewSocks5UDPDatagram(addr model.AddrSpec, payload []byte) ([]byte, error) {
+	return newSocks5UDPDatagram(addr, payload)
+}
+
+// VerifC18UDPAddrToHeader calls udpAddrToHeader.
+func VerifC18UDPAddrToHeader(addr *net.UDPAddr) []byte { return udpAddrToHeader(addr) }
+
+// VerifC18ResolveSocks5UDPAddr calls resolveSocks5UDPAddr.
+func VerifC18ResolveSocks5UDPAddr(resolver apicommon.DNSResolver, addr model.AddrSpec) (*net.UDPAddr, error) {
+	return resolveSocks5UDPAddr(context.Background(), resolver, addr)
+}
